@@ -1,8 +1,14 @@
-/-! Mathlib-free generic dense matrices. -/
+import XeofsModel.Num
+/-! Mathlib-free generic dense matrices and the entry/real scalar classes shared by the executable model
+(run on `Float` by the driver) and the proofs (instantiated at `ℝ` / `𝕜` in `XeofsProofs.Bridge`). -/
 namespace XM
 
 class Conj (α : Type) where
   conj : α → α
+
+/-- entries `α` over reals `ρ` (Float/Float in the driver, ℝ/𝕜 in the proofs) -/
+class Entry (ρ α : Type) extends Add α, Sub α, Mul α, Zero α, Conj α where
+  ofReal : ρ → α
 
 structure Mat (n m : Nat) (α : Type) where
   data : Vector (Vector α m) n
@@ -25,16 +31,20 @@ def mul [Add α] [Mul α] [Zero α] (A : Mat n k α) (B : Mat k m α) : Mat n m 
 def conjT [Conj α] (A : Mat n m α) : Mat m n α := ofFn fun j i => Conj.conj (A.get i j)
 
 def scaleCols [Mul α] (A : Mat n m α) (s : Fin m → α) : Mat n m α := ofFn fun i j => A.get i j * s j
+
+def sub [Sub α] (A B : Mat n m α) : Mat n m α := ofFn fun i j => A.get i j - B.get i j
+
+def add [Add α] (A B : Mat n m α) : Mat n m α := ofFn fun i j => A.get i j + B.get i j
+
+/-- the first `k` columns -/
+def firstCols (A : Mat n m α) (k : Nat) (h : k ≤ m) : Mat n k α :=
+  ofFn fun i j => A.get i ⟨j.val, Nat.lt_of_lt_of_le j.isLt h⟩
+
+def toLists (A : Mat n m α) : List (List α) :=
+  (List.finRange n).map fun i => (List.finRange m).map fun j => A.get i j
 end Mat
 end XM
 
 instance : XM.Conj Float := ⟨id⟩
 instance : Zero Float := ⟨0.0⟩
-
-def testA : XM.Mat 2 2 Float := XM.Mat.ofFn fun i j => (i.val.toFloat + 1) * (j.val.toFloat + 2)
-
-namespace XM
-/-- generic EOF post-processing (Mathlib-free): scores = U * s, explained variance = s^2/(n-1) -/
-def eofScores {α} [Mul α] {n k : Nat} (U : Mat n k α) (s : Fin k → α) : Mat n k α := U.scaleCols s
-def eofTransform {α} [Add α] [Mul α] [Zero α] {n p k : Nat} (X : Mat n p α) (V : Mat p k α) : Mat n k α := X.mul V
-end XM
+instance : XM.Entry Float Float := { ofReal := id }
